@@ -119,6 +119,8 @@ PROPS = {
                  quick=dict(cases=200000, len=260), thorough=dict(cases=5000000, len=260)),
             dict(h='hex', mode='enum', what='every string over {0,x,a,F,:,newline,space,g}', params=dict(kind=2),
                  quick=dict(params=dict(len=6)), thorough=dict(params=dict(len=8))),
+            dict(h='hex', mode='fuzz', what='libFuzzer over arrays, grammar texts and arbitrary strings',
+                 quick=dict(runs=600000, max_len=300, len=260), thorough=dict(runs=40000000, max_len=300, len=260, timeout=3000)),
         ],
         require={'round-trip-more-than-one-line': 1000, 'grammar-multi-line-with-prefix': 1000, 'arbitrary-string': 1000,
                  'trailing-junk': 1000, 'grammar-without-prefix': 1000},
@@ -164,6 +166,8 @@ PROPS = {
             dict(h='pack', mode='enum', what='all short sequences over a reduced domain', params=dict(maxsize=3),
                  common=dict(maxruns=4000000), quick=dict(params=dict(ops=3)), thorough=dict(params=dict(ops=4))),
             dict(h='pack', mode='custom', what='value sweeps (all 16-bit values; 32-bit single-byte patterns)'),
+            dict(h='pack', mode='fuzz', what='libFuzzer over op sequences',
+                 quick=dict(runs=400000, max_len=500, len=400), thorough=dict(runs=30000000, max_len=500, len=400, timeout=3000)),
         ],
         require={'exact-fit': 1000, 'overflow': 1000, 'round-trip': 1000, 'pack-null-source': 1000,
                  'unpack-null-destination': 1000},
@@ -183,6 +187,8 @@ PROPS = {
         stages=[
             dict(h='wav', mode='rc', what='forward + structured reverse', params=dict(oracle=13),
                  quick=dict(cases=200000, len=200), thorough=dict(cases=5000000, len=200)),
+            dict(h='wav', mode='fuzz', what='libFuzzer over structured headers (reverse oracle)', params=dict(oracle=13, kind=1),
+                 quick=dict(runs=400000, max_len=300, len=200), thorough=dict(runs=30000000, max_len=300, len=200, timeout=3000)),
         ],
         require={'forward-over-previous-header': 1000, 'forward-frames-set-twice': 1000, 'accepted': 1000,
                  'accepted-with-fact-chunk': 300, 'accepted-with-extension': 300},
@@ -202,6 +208,8 @@ PROPS = {
         stages=[
             dict(h='wav', mode='rc', what='structured + raw untrusted bytes', params=dict(oracle=14),
                  quick=dict(cases=300000, len=220), thorough=dict(cases=10000000, len=220)),
+            dict(h='wav', mode='fuzz', what='libFuzzer (coverage-guided) over raw and structured bytes, same oracle', params=dict(oracle=14),
+                 quick=dict(runs=600000, max_len=300, len=220), thorough=dict(runs=40000000, max_len=300, len=220, timeout=3000)),
         ],
         require={'length>=44-and-magic-present': 1000, 'accepted': 1000, 'structured-truncated': 1000, 'raw-bytes': 1000},
         assumptions=['declared lengths stay far below 2^31 (return type int)'],
@@ -226,6 +234,8 @@ PROPS = {
                  quick=dict(cases=100000, len=600), thorough=dict(cases=3000000, len=600)),
             dict(h='console', mode='enum', what='all streams over a reduced alphabet', params=dict(kind=4),
                  quick=dict(params=dict(len=7)), thorough=dict(params=dict(len=9))),
+            dict(h='console', mode='fuzz', what='libFuzzer over console streams (all delivery mechanisms)',
+                 quick=dict(runs=200000, max_len=700, len=600), thorough=dict(runs=10000000, max_len=700, len=600, timeout=3000)),
         ],
         require={'exact-dispatch-checked': 5000, 'exact-four-tokens': 500, 'line-with-quoted-argument': 5000, 'edit-backspace': 5000,
                  'edit-ctrl-c': 2000, 'line-completed-by-buffer-fill': 300, 'console_eval': 3000, 'registration-reached-full-table': 500,
@@ -282,6 +292,8 @@ PROPS = {
                  quick=dict(cases=200000, len=500), thorough=dict(cases=5000000, len=500)),
             dict(h='fibre', mode='enum', what='all short histories, 3 fibres', params=dict(oracle=1, fibres=3),
                  common=dict(maxruns=1500000, split=4), quick=dict(params=dict(ops=4)), thorough=dict(params=dict(ops=6), maxruns=30000000)),
+            dict(h='fibre', mode='fuzz', what='libFuzzer over scheduler histories', params=dict(oracle=1),
+                 quick=dict(runs=300000, max_len=600, len=500), thorough=dict(runs=20000000, max_len=600, len=500, timeout=3000)),
         ],
         require={'coalesced-reason': 1000, 'kill-returned-true': 1000, 'two-or-more-atomic-requests-at-one-drain': 1000,
                  'timer-cancelled-by-run-or-kill': 1000, 'restart-after-exit': 1000},
